@@ -14,7 +14,7 @@ Driver commands for the advisory notations and the simple relation converters
 `<items>` = `-` or comma-separated `star` / `<cmpr>:<hex str(version)>`.
 
 Version constructors: the Layer-A model of the version class where one exists in this tree
-(`modelled` below), otherwise the stub `stubVer` which behaves like the base class
+(`advModelled` below), otherwise the stub `advStubVer` which behaves like the base class
 `univers.versions.Version` (normalize = remove whitespace + `lstrip("vV")`, valid iff non-empty,
 `str` = the normalized text).  The harness asks `advisory stubs` and substitutes the base class
 for exactly those classes on the Python side, so that the text layer is compared exactly.
@@ -38,12 +38,12 @@ namespace Univers.Driver
 open Univers Univers.Text Univers.Text.Advisory
 
 /-- base `univers.versions.Version` -/
-def stubVer (s : List Char) : Except TErr (List Char) :=
+def advStubVer (s : List Char) : Except TErr (List Char) :=
   let n := (Advisory.removeSpaces s).dropWhile (fun c => c == 'v' || c == 'V')
   if n.isEmpty then .error .InvalidVersion else .ok n
 
 /-- version classes with a Layer-A model wired here -/
-def modelled : List (String × (List Char → Except TErr (List Char))) := [
+def advModelled : List (String × (List Char → Except TErr (List Char))) := [
   ("SemverVersion", fun s => match Semver.construct s with
     | .ok r => .ok (Semver.str r) | .error .invalid => .error .InvalidVersion
     | .error (.other n) => .error (.other n)),
@@ -92,13 +92,13 @@ def modelled : List (String × (List Char → Except TErr (List Char))) := [
 
 /-- the version constructor by version-class name -/
 def advMkVerOf (vc : String) : List Char → Except TErr (List Char) :=
-  match modelled.lookup vc with
+  match advModelled.lookup vc with
   | some f => f
-  | none => stubVer
+  | none => advStubVer
 
 /-- the version classes of the registry that are served by the stub -/
 def advStubs : List String :=
-  ((Gen.rangeClasses.filterMap (·.versionClass)).filter (fun vc => (modelled.lookup vc).isNone)).eraseDups
+  ((Gen.rangeClasses.filterMap (·.versionClass)).filter (fun vc => (advModelled.lookup vc).isNone)).eraseDups
 
 /-- `from_native` of conan / maven / nuget is not part of this component -/
 def advStubNative (_ : String) (_ : List Char) : Except TErr (List TCon) := .error (.other "Delegated")
@@ -109,31 +109,31 @@ def advVerOfClass (cls : String) : List Char → Except TErr (List Char) :=
   | some vc => advMkVerOf vc
   | none => fun _ => .error .TypeError
 
-def cmprTag : Cmpr → String
+def advCmprTag : Cmpr → String
   | .ge => "ge" | .le => "le" | .ne => "ne" | .lt => "lt" | .gt => "gt" | .eq => "eq"
 
-def tconStr : TCon → String
+def advTconStr : TCon → String
   | .star => "star"
-  | .mk c v => cmprTag c ++ ":" ++ hex v
+  | .mk c v => advCmprTag c ++ ":" ++ hex v
 
 def advResult : Except TErr (List TCon) → String
   | .ok [] => "ok:-"
-  | .ok cs => "ok:" ++ ",".intercalate (cs.map tconStr)
+  | .ok cs => "ok:" ++ ",".intercalate (cs.map advTconStr)
   | .error e => "err:" ++ e.name
 
 /-- `h1;h2;…` → the list of strings; `[]` → the empty list -/
-def unhexList (t : String) : List (List Char) :=
+def advUnhexList (t : String) : List (List Char) :=
   if t == "[]" then [] else (t.splitOn ";").map unhex
 
 def advisoryCmdWith (nativeOf : String → List Char → Except TErr (List TCon)) :
     List String → Option String
   | ["advisory", "stubs"] => some (",".intercalate advStubs)
-  | ["advisory", "github", scheme, h] => some (advResult (fromGithub advMkVerOf scheme (unhexList h)))
-  | ["advisory", "snyk", scheme, h] => some (advResult (fromSnyk advMkVerOf scheme (unhexList h)))
+  | ["advisory", "github", scheme, h] => some (advResult (fromGithub advMkVerOf scheme (advUnhexList h)))
+  | ["advisory", "snyk", scheme, h] => some (advResult (fromSnyk advMkVerOf scheme (advUnhexList h)))
   | ["advisory", "gitlab", scheme, h] =>
       some (advResult (fromGitlab advMkVerOf nativeOf scheme (unhex h)))
-  | ["native", "deb", h] => some (advResult (debNatives (advVerOfClass "DebianVersionRange") (unhexList h)))
-  | ["native", "rpm", h] => some (advResult (rpmNatives (advVerOfClass "RpmVersionRange") (unhexList h)))
+  | ["native", "deb", h] => some (advResult (debNatives (advVerOfClass "DebianVersionRange") (advUnhexList h)))
+  | ["native", "rpm", h] => some (advResult (rpmNatives (advVerOfClass "RpmVersionRange") (advUnhexList h)))
   | ["native", "openssl", h] =>
       some (advResult (opensslNative (advVerOfClass "OpensslVersionRange") (unhex h)))
   | ["native", "nginx", h] => some (advResult (nginxNative nginxSemver (unhex h)))
